@@ -375,7 +375,10 @@ class ThreadingApplication(Application):
         try:
             try:
                 answer = self.handle_request(message)
-            except Exception as e:
+            except BaseException as e:
+                # also what is not an `Exception` (SystemExit from a stray
+                # `sys.exit()`, asyncio.CancelledError): the request is
+                # answered like any other whose handling failed
                 logger.warning(f"{self} message handling failed: {repr(e)}")
                 try:
                     answer = self.generate_answer(
